@@ -18,13 +18,13 @@ package dtlshandshake
 //@ define ownConn(c) typeIs(c, "github.com/pion/dtls/v3.handshakeConn")
 
 //@ func fsm12.finish
-//@ watch Conn.WritePackets recv:value.t0
+//@ watch Conn.WritePackets recv:Conn.RecvHandshake
 //@ requires args: s != nil && s.state != nil && s.state.Common != nil && ownConn(c) && !isNil(ctx)
 //@ ensures client-never-resends: old(s.state.Common.IsClient) ==> result0 != StateSending
 //@ ensures outcomes: result0 == StateFinished || result0 == StateSending || result0 == StateErrored
 //@ ensures sends-nothing-itself: !called("Conn.WritePackets")
-//@ ensures server-resends-only-after-receive: result0 == StateSending ==> called("recv:value.t0") && !old(s.state.Common.IsClient)
-//@ ensures one-event-per-step: ncalls("recv:value.t0") <= 1
+//@ ensures server-resends-only-after-receive: result0 == StateSending ==> called("recv:Conn.RecvHandshake") && !old(s.state.Common.IsClient)
+//@ ensures one-event-per-step: ncalls("recv:Conn.RecvHandshake") <= 1
 //@ end
 
 // SENDING: one WritePackets call for the buffered flight, then WAITING (or FINISHED after the last
@@ -60,10 +60,10 @@ package dtlshandshake
 //@ define ivOK(x) (x > 0 && x <= 4611686018427387903)
 
 //@ func fsm12.wait
-//@ watch handleRetransmitTimeout handleWaitCancellation Parse Conn.WritePackets recv:value.t3
+//@ watch handleRetransmitTimeout handleWaitCancellation Parse Conn.WritePackets recv:Conn.RecvHandshake
 // (The channel returned by the interface call conn.RecvHandshake() has no stable source-level name;
 // the engine calls it value.t3 in wait and value.t0 in finish.)
-//@ define lastEvent() retAs("recv:value.t3", 0, RecvHandshakeState{})
+//@ define lastEvent() retAs("recv:Conn.RecvHandshake", 0, RecvHandshakeState{})
 //@ requires args: s != nil && s.state != nil && s.state.Common != nil && s.cfg != nil && !isNil(s.cfg.Log) && ownConn(conn) && !isNil(ctx)
 //@ requires interval-range: ivOK(s.retransmitInterval) && ivOK(s.cfg.InitialRetransmitInterval)
 //@ ensures resend-only-by-timer: result0 == StateSending ==> called("handleRetransmitTimeout") && old(s.retransmit)
@@ -73,10 +73,10 @@ package dtlshandshake
 //@ ensures timer-without-resend-keeps-interval: result0 == StateWaiting ==> called("handleRetransmitTimeout") && !old(s.retransmit)
 //@ ensures no-event-no-reset: result0 == StateWaiting && !called("Parse") ==> s.retransmitInterval == old(s.retransmitInterval)
 // (Re-add once event counters are bounded by the engine - today ncalls can wrap after a loop havoc:
-//   ensures retransmitted-event-keeps-interval: ncalls("recv:value.t3") == 1 && lastEvent().IsRetransmit && !called("handleRetransmitTimeout") && !called("handleWaitCancellation") ==> s.retransmitInterval == old(s.retransmitInterval)
+//   ensures retransmitted-event-keeps-interval: ncalls("recv:Conn.RecvHandshake") == 1 && lastEvent().IsRetransmit && !called("handleRetransmitTimeout") && !called("handleWaitCancellation") ==> s.retransmitInterval == old(s.retransmitInterval)
 //  with the loop invariant  ncalls == 0 ==> interval unchanged,  ncalls == 1 ==> first-event law.)
-//@ ensures interval-changes-only-on-event: !called("recv:value.t3") && !called("handleRetransmitTimeout") && !called("handleWaitCancellation") ==> s.retransmitInterval == old(s.retransmitInterval)
-//@ ensures new-data-restores-initial: called("recv:value.t3") && !lastEvent().IsRetransmit && !called("handleRetransmitTimeout") && !called("handleWaitCancellation") ==> s.retransmitInterval == s.cfg.InitialRetransmitInterval
+//@ ensures interval-changes-only-on-event: !called("recv:Conn.RecvHandshake") && !called("handleRetransmitTimeout") && !called("handleWaitCancellation") ==> s.retransmitInterval == old(s.retransmitInterval)
+//@ ensures new-data-restores-initial: called("recv:Conn.RecvHandshake") && !lastEvent().IsRetransmit && !called("handleRetransmitTimeout") && !called("handleWaitCancellation") ==> s.retransmitInterval == s.cfg.InitialRetransmitInterval
 //@ ensures sends-nothing-itself: !called("Conn.WritePackets")
 //@ ensures progress-needs-event: (result0 == StatePreparing || result0 == StateFinished) ==> called("Parse")
 //@ ensures interval-stays-in-range: result0 != StateErrored ==> s.retransmitInterval > 0
@@ -84,8 +84,8 @@ package dtlshandshake
 //@ loop #1: config-kept: s.cfg.InitialRetransmitInterval == old(s.cfg.InitialRetransmitInterval) && s.cfg.DisableRetransmitBackoff == old(s.cfg.DisableRetransmitBackoff)
 //@ loop #1: interval-initial-or-unchanged: s.retransmitInterval == old(s.retransmitInterval) || s.retransmitInterval == s.cfg.InitialRetransmitInterval
 //@ loop #1: no-event-no-reset: !called("Parse") ==> s.retransmitInterval == old(s.retransmitInterval)
-//@ loop #1: no-event-yet: !called("recv:value.t3") ==> s.retransmitInterval == old(s.retransmitInterval) && !called("Parse")
-//@ loop #1: last-event-law: called("recv:value.t3") && !lastEvent().IsRetransmit ==> s.retransmitInterval == s.cfg.InitialRetransmitInterval
+//@ loop #1: no-event-yet: !called("recv:Conn.RecvHandshake") ==> s.retransmitInterval == old(s.retransmitInterval) && !called("Parse")
+//@ loop #1: last-event-law: called("recv:Conn.RecvHandshake") && !lastEvent().IsRetransmit ==> s.retransmitInterval == s.cfg.InitialRetransmitInterval
 //@ loop #1: timer-not-yet: !called("handleRetransmitTimeout") && !called("handleWaitCancellation") && !called("Conn.WritePackets")
 //@ end
 
